@@ -479,7 +479,7 @@ var (
 		// characters whose last UTF-8 byte is 0x85 or 0xA0 (NEL and NBSP when a byte is taken for a character), and wide blanks
 		"voilà", "Š", "Р", "Å", "ą", "à ", "\u3000", "\u2003", "\u00a0", "\u0085", "x\u3000"}
 	propNames    = []string{"p", "q", "size", "colour", "é", "n1", "trimwhitespace_", "v", "_k"}
-	wordValues   = []string{"red", "big", "é", "x_1", "True1", "falsey", "nul"}
+	wordValues   = []string{"red", "big", "é", "x_1", "True1", "falsey", "nul", "falſe", "FALſE", "trUe1", "ﬁne", "Kelvin\u212a", "straße", "İx"}
 	quotedValues = []string{"", "two words", "a]b", "[x]", "é 日", "it's", `say "hi"`, "100%", " padded "}
 	intValues    = []string{"0", "1", "2", "3", "7", "11", "12", "13", "21", "22", "23", "42", "101", "111", "112", "007", "1000000", "2147483648", "4294967297", "9223372036854775807", "9223372036854775802", "9223372036854775711"}
 	floatValues  = []string{"1.5", "1.05", "0.001", "3.14159", "10.50", "2.0", "0.5", "100.001", "7.25", "0.1"}
